@@ -30,25 +30,38 @@ Master(seed, version) ==
     IF BIsZero(il) \/ BGe(il, C1.n) THEN Bad
     ELSE [ok |-> TRUE, version |-> version, depth |-> 0, fp |-> Zeros(4), index |-> Zeros(4), chain |-> Drop(I, 32), key |-> <<0>> \o Take(I, 32)]
 
-CKDpriv(node, i) ==
+\* the child from the 64 bytes I the HMAC gave (a parameter, so that traces with a dictated HMAC bind the refusals)
+CKDprivWith(node, i, I) ==
     LET k == PrvOf(node)
-        data == IF Hardened(i) THEN <<0>> \o BToBytes(k, 32) \o Ser32(i) ELSE SerP(RMulG(C1, k)) \o Ser32(i)
-        I == HMAC(HF("sha512"), node.chain, data)
         il == BFromBytes(Take(I, 32))
         child == BAddMod(il, k, C1.n)
     IN IF BGe(il, C1.n) \/ BIsZero(child) \/ node.depth >= 255 THEN Bad
        ELSE [ok |-> TRUE, version |-> node.version, depth |-> node.depth + 1, fp |-> Fingerprint(node), index |-> Ser32(i),
              chain |-> Drop(I, 32), key |-> <<0>> \o BToBytes(child, 32)]
 
-CKDpub(node, i) ==
+CKDpriv(node, i) ==
+    LET k == PrvOf(node)
+        data == IF Hardened(i) THEN <<0>> \o BToBytes(k, 32) \o Ser32(i) ELSE SerP(RMulG(C1, k)) \o Ser32(i)
+    IN CKDprivWith(node, i, HMAC(HF("sha512"), node.chain, data))
+
+CKDpubWith(node, i, I) ==
     IF Hardened(i) THEN Bad ELSE
     LET K == PubPoint(node)
-        I == HMAC(HF("sha512"), node.chain, SerP(K) \o Ser32(i))
         il == BFromBytes(Take(I, 32))
         child == ECR!Add(C1, RMulG(C1, il), K)
     IN IF BGe(il, C1.n) \/ child.inf \/ node.depth >= 255 THEN Bad
        ELSE [ok |-> TRUE, version |-> node.version, depth |-> node.depth + 1, fp |-> Fingerprint(node), index |-> Ser32(i),
              chain |-> Drop(I, 32), key |-> SerP(child)]
+
+CKDpub(node, i) == IF Hardened(i) THEN Bad ELSE CKDpubWith(node, i, HMAC(HF("sha512"), node.chain, SerP(PubPoint(node)) \o Ser32(i)))
+
+\* SLIP132 version bytes: [purpose][network][prv|pub]
+Slip132(kind, test, prv) ==
+    CASE kind = "p2pkh"       -> IF test THEN (IF prv THEN FromHex("04358394") ELSE FromHex("043587cf")) ELSE (IF prv THEN FromHex("0488ade4") ELSE FromHex("0488b21e"))
+      [] kind = "p2wpkh_p2sh" -> IF test THEN (IF prv THEN FromHex("044a4e28") ELSE FromHex("044a5262")) ELSE (IF prv THEN FromHex("049d7878") ELSE FromHex("049d7cb2"))
+      [] kind = "p2wpkh"      -> IF test THEN (IF prv THEN FromHex("045f18bc") ELSE FromHex("045f1cf6")) ELSE (IF prv THEN FromHex("04b2430c") ELSE FromHex("04b24746"))
+TestVersions == {FromHex("04358394"), FromHex("043587cf"), FromHex("044a4e28"), FromHex("044a5262"), FromHex("045f18bc"), FromHex("045f1cf6"),
+                 FromHex("024285b5"), FromHex("024289ef"), FromHex("02575048"), FromHex("02575483")}
 
 CKD(node, i) == IF IsPrv(node) THEN CKDpriv(node, i) ELSE CKDpub(node, i)
 RECURSIVE DeriveFrom(_, _, _)
